@@ -11,6 +11,7 @@ import JenVerif.Props.C19
 import JenVerif.Props.C03
 import JenVerif.Props.C16
 import JenVerif.Props.C12
+import JenVerif.Props.C11
 import JenVerif.Tie.TokenSrc
 /-
   Property statements transferred to the TRANSLATED code.
@@ -306,6 +307,23 @@ theorem C12_byte_on_code (cfg : Cfg) (rec : Go.Rec) (f : FileS) (b : UInt8) :
   rw [token_render_lit, h1]
   rfl
 
+/-- C11 on the translated `token.render`: an untyped int is written as a decimal literal with exactly
+    its value; a sized integer as `<type name>(<literal>)` with the Go name of its own type -/
+theorem C11_int_on_code (cfg : Cfg) (rec : Go.Rec) (f : FileS) (v : Int) :
+    ∃ out, Gen.Src.token_render cfg rec (Go.tokTyp (.lit (.int v))) (Go.dynOf (.lit (.int v))) f [] = some (out, f) ∧
+      GoNum.readSignedDec out = some v := by
+  refine ⟨_, by rw [token_render_lit], ?_⟩
+  simp only [List.nil_append]
+  exact C11.int_render cfg.isPrint v
+
+theorem C11_sized_on_code (cfg : Cfg) (rec : Go.Rec) (f : FileS) (ty : NumTy) (v : Int) :
+    Gen.Src.token_render cfg rec (Go.tokTyp (.lit (.sized ty v))) (Go.dynOf (.lit (.sized ty v))) f [] =
+      some (ty.name ++ b!"(" ++ Lit.fmtInt ty.signed v ++ b!")", f) := by
+  rw [token_render_lit, C11.typed_shape]
+  rfl
+
+#print axioms C11_int_on_code
+#print axioms C11_sized_on_code
 #print axioms C12_string_on_code
 #print axioms C12_byte_on_code
 #print axioms C16_dict_on_code
